@@ -283,6 +283,12 @@ def oracle_C01(objs, st=None, tol=1e-8):
             st.check('C01 ' + k, eff, tol, cid, detail=dict(defect_by_resolution=hist))
         if len(st.samples) < 3:
             st.samples.append(dict(case=cid, defects=c01_defects(q)))
+        # MHD equilibrium at first order: the covariant radial component that the identities above take from the object
+        # (beta_1s) is the one force balance dictates for the given pressure, with both sign flags
+        if q.order != 'r1' and hasattr(q, 'beta_1s'):
+            b1 = -4 * q.spsi * q.sG * mu0 * q.p2 * q.etabar * abs(q.G0) / (q.iotaN * q.B0 ** 3)
+            st.check('C01 first-order force balance: beta_1s = -4 spsi sG mu0 p2 etabar |G0| / (iotaN B0^3)',
+                     abs(q.beta_1s - b1) / (abs(b1) + 1e-300) if b1 != 0 else abs(q.beta_1s), 1e-11, cid)
     return st
 
 
@@ -860,7 +866,36 @@ def oracle_C06(objs, st=None):
     """nfp = k declared as nfp = 1 with harmonics interleaved with zeros, at k times the resolution (odd k keep the grid odd)"""
     st = st or Stats()
     objs = list(objs) + qh_cases()[:2]
+    # other descriptions of each configuration, on which index-sensitive code behaves differently in the two declarations:
+    # seen from half a period away and mirrored in Z (the axis normal then points outward at phi = 0 and its quadrant
+    # sequence wraps at the period boundary), and with the origin placed so that a profile extremum falls on the LAST
+    # grid point of the period (an interior point of the nfp = 1 grid)
+    extra = []
     for c, q, cap in objs:
+        if q.nfp == 1 or q.nfp % 2 == 0 or q.nphi * q.nfp > 170:
+            continue
+        kw0 = c['kwargs']
+        var = []
+        kwm = dict(kw0)
+        for a in ('rc', 'zs', 'rs', 'zc'):
+            if a in kwm:
+                sgn = -1.0 if a in ('zs', 'zc') else 1.0
+                kwm[a] = [sgn * x * (-1) ** j_ if j_ else x * (1.0 if a in ('rc',) else sgn) for j_, x in enumerate(kwm[a])]
+        if 'sigma0' in kwm:
+            kwm['sigma0'] = 0.0 if not kwm['sigma0'] else -kwm['sigma0']
+        var.append(('half-period origin, mirrored', kwm))
+        for prof in (q.R0, -q.elongation):
+            j_ = int(np.argmin(prof))
+            var.append(('extremum on the last grid point', shifted_kwargs(kw0, q, (j_ + 1) % q.nphi)))
+        for what, kwv in var:
+            try:
+                qv = build(kwv)
+            except Exception:
+                continue
+            import inputs as _inp
+            if np.all(np.isfinite(qv.sigma)) and _inp.admissible(qv):
+                extra.append((dict(kind=c.get('kind'), name=c.get('name'), kwargs=kwv, derived=what), qv, None))
+    for c, q, cap in objs + extra:
         kq = q.nfp
         if kq == 1 or kq % 2 == 0 or q.nphi * kq > 170:
             continue
@@ -1354,6 +1389,24 @@ def oracle_C15(objs, st=None):
     import tempfile
     st = st or Stats()
     rng = np.random.default_rng(15)
+    # exports are independent of earlier exports: a call that leaves `params` to its default must write what the same call
+    # writes when it is given a fresh dictionary, whatever was exported before in this process (other object, other ntheta)
+    def _body(fn_):
+        return [l for l in open(fn_).read().split('\n') if 'Date' not in l and 'date' not in l]
+    for k_, (c, q, cap) in enumerate(objs[:3]):
+        cid = dict(case_id(c), history='to_vmec of another object with default params, then this export with default params')
+        r = float(min(0.03 * np.min(q.R0), 0.2 * getattr(q, 'r_singularity', 1e100), 0.1 / np.max(q.curvature)))
+        with tempfile.TemporaryDirectory() as tmp:
+            try:
+                small = objs[(k_ + 1) % len(objs)][1]
+                _copy.deepcopy(small).to_vmec(_os.path.join(tmp, 'first'), r=1e-3 * float(np.min(small.R0)), ntheta=6)      # default params
+                _copy.deepcopy(q).to_vmec(_os.path.join(tmp, 'second'), r=r, ntheta=12)                                   # default params again
+                _copy.deepcopy(q).to_vmec(_os.path.join(tmp, 'fresh'), r=r, ntheta=12, params=dict())
+            except ValueError:
+                continue
+            a_, b_ = _body(_os.path.join(tmp, 'second')), _body(_os.path.join(tmp, 'fresh'))
+        st.check('an export does not depend on earlier exports (default params)', float(a_ != b_), 0.0, cid,
+                 detail=next((dict(default=x, fresh=y) for x, y in zip(a_, b_) if x != y), None))
     for c, q, cap in objs:
         cid = case_id(c)
         st.distinct.add(json_key(c))
@@ -1425,16 +1478,23 @@ def oracle_C18(objs, st=None):
     # (solved scalars, arclength integrals, extrema of the trigonometric interpolant); named configurations, whose
     # spectra decay fast enough to be resolved on this ladder
     from qsc import Qsc
-    SPECTRAL = ('iota', 'axis_length', 'min_R0', 'max_elongation', 'mean_elongation', 'min_L_grad_B', 'B20_mean', 'B20_residual', 'd2_volume_d_psi2', 'DMerc_times_r2')
+    SPECTRAL = ('iota', 'axis_length', 'min_R0', 'max_elongation', 'mean_elongation', 'min_L_grad_B', 'B20_mean', 'B20_residual', 'd2_volume_d_psi2', 'DMerc_times_r2', 'iota2')
     ladder = (31, 61, 101, 131, 161)
     for nm, extra in (('r2 section 5.1', dict(rs=[0, 1e-4], sigma0=0.05)), ('precise QA', dict(sG=-1, spsi=-1, B0=0.8, sigma0=0.2)), ('r2 section 5.4', dict(zc=[0, 3e-4])),
                       ('r1 section 5.1', dict(rs=[0, 1e-4])),
                       # extremum of R0 slightly off a grid point, data almost symmetric about it
-                      (None, dict(rc=[1, -0.03], zs=[0, 0.03], rs=[0, 1e-4], nfp=3, etabar=0.8, B0=1.2, order='r1'))):
+                      (None, dict(rc=[1, -0.03], zs=[0, 0.03], rs=[0, 1e-4], nfp=3, etabar=0.8, B0=1.2, order='r1')),
+                      # a weakly shaped axis: the profiles vary by less than 1e-4 relative (extrema still come from the interpolant)
+                      (None, dict(rc=[1, 3e-5], zs=[0, 3e-5], rs=[0, 1e-5], nfp=2, etabar=0.9, order='r1')),
+                      # stellarator-symmetric third-order configurations: the shear integral is spectral there
+                      ('r2 section 5.2', dict()), ('r2 section 5.5', dict(sigma0=0.0))):
         vals = []
         for n in ladder:
             qq = Qsc(nphi=n, **extra) if nm is None else Qsc.from_paper(nm, nphi=n, order=('r3' if not nm.startswith('r1') else 'r1'), **extra)
+            if qq.order == 'r3' and qq.sigma0 == 0 and not np.any(qq.rs) and not np.any(qq.zc):
+                qq.calculate_shear()        # (the non-symmetric branch integrates by the trapezoid rule: second order, see below)
             vals.append({k: float(getattr(qq, k)) for k in SPECTRAL if hasattr(qq, k)})
+            helical = bool(qq.helicity != 0)
         cid = dict(kind='named' if nm else 'explicit', name=nm, kwargs=dict(extra, **({'name': nm} if nm else {})), ladder=list(ladder))
         st.distinct.add('ladder' + str(nm))
         for k in SPECTRAL:
@@ -1452,8 +1512,16 @@ def oracle_C18(objs, st=None):
                 worst = max([abs(v[j] - v[resolved_at]) / sc for j in range(resolved_at, len(v))] + [0.0])
             st.check('spectrally converging outputs change by less than 1e-8 once resolved (%s)' % k, worst, 1e-8, cid, detail=dict(values=v, resolved_at=None if resolved_at is None else ladder[resolved_at]))
             # arclength integrals and solved scalars of these smooth configurations ARE resolved to 1e-8 by nphi = 131
-            if k in ('iota', 'axis_length', 'mean_elongation', 'B20_mean', 'd2_volume_d_psi2', 'DMerc_times_r2') and not (nm == 'r2 section 5.4' and k == 'mean_elongation'):
+            if k in ('iota', 'axis_length', 'mean_elongation', 'B20_mean', 'd2_volume_d_psi2', 'DMerc_times_r2', 'iota2') and not (k == 'mean_elongation' and helical):      # the elongation is only Lipschitz where a cross-section is circular (quasi-helical shapes): slow spectrum
                 st.check('arclength integrals and solved scalars converge spectrally (change 131 -> 161 below 1e-8) (%s)' % k, abs(v[-1] - v[-2]) / sc, 1e-8, cid, detail=dict(values=v))
+            # extrema located on the interpolant: resolved on these smooth configurations too, except where the profile is only
+            # Lipschitz (elongation of quasi-helical shapes) or the data is second order (B20 from the O(r^2) solve is spectral, fine)
+            if k in ('min_R0', 'max_elongation', 'min_L_grad_B') and not (k == 'max_elongation' and helical):
+                st.check('extrema located on the interpolant converge spectrally (change 131 -> 161 below 1e-8) (%s)' % k, abs(v[-1] - v[-2]) / sc, 1e-8, cid, detail=dict(values=v))
+                # the explicit one-harmonic axes are resolved on every rung of the ladder, the named configurations from 101 on
+                j0 = 0 if nm is None else 2
+                if k == 'min_R0':       # (pure axis geometry: resolved as soon as the axis harmonics are)
+                  st.check('extrema located on the interpolant agree on all resolved rungs of the ladder to 1e-8 (%s)' % k, max(abs(x - v[-1]) for x in v[j0:]) / sc, 1e-8, cid, detail=dict(values=v, rungs=list(ladder[j0:])))
     # convergence of scalar outputs with resolution (spectral for solved quantities)
     for c, q, cap in objs[:2]:
         cid = case_id(c)
@@ -1517,8 +1585,15 @@ def oracle_C20(st=None, seed=0, thorough=False):
         st.check('spectral minimum does not exceed any sample', max(0.0, m - np.min(y)), 1e-12 * (1 + abs(np.min(y))), cid)
         fine = np.linspace(0, 2 * np.pi, 4001)
         st.check('spectral minimum equals the minimum of the interpolant (single-well data)', abs(m - np.min(fourier_interpolation(y, fine))), 1e-5 * (np.max(y) - np.min(y)), cid)
-        s = int(rng.integers(1, N))
-        st.check('spectral minimum invariant under cyclic shifts', abs(fourier_minimum(np.roll(y, s)) - m), 1e-9 * (1 + abs(m)), cid)
+        def fm(yy):
+            try:
+                return float(fourier_minimum(yy))
+            except Exception:
+                return float('nan')          # an exception is a violated contract, reported with the input that raises it
+        j_ = int(np.argmin(y))
+        for s in sorted({int(rng.integers(1, N)), (N - 1 - j_) % N, (N - 2 - j_) % N, (-j_) % N, (1 - j_) % N}):
+            # (the shifts that put the smallest sample on the last / next-to-last / first / second array element included)
+            st.check('spectral minimum invariant under cyclic shifts', abs(fm(np.roll(y, s)) - m), 1e-9 * (1 + abs(m)), dict(cid, shift=s, smallest_sample_at=int((j_ + s) % N)))
         st.check('constant data returns the constant', abs(fourier_minimum(np.full(N, 1.25)) - 1.25), 0.0, cid)
     # purity: a second call with the same arguments is unaffected by what the caller did with the first result
     for n in (9, 12, 31):
@@ -1627,12 +1702,25 @@ def oracle_C16(objs, st=None, nhist=3, hlen=6, n_named=None, seed=0):
     import inputs
     st = st or Stats()
     rng = np.random.default_rng(16 + seed)
+    # axes whose harmonics live in only some of the four coefficient arrays: the highest harmonic carried by (rs, zc) alone,
+    # resp. by (rc, zs) alone (a size change or a "skip if zero" shortcut that looks at two of the four arrays shows here)
+    objs = list(objs)
+    for kw in (dict(rc=[1, 0.06, 0.0], zs=[0, -0.05, 0.0], rs=[0, 0, 0.008], zc=[0, 0, -0.006], nfp=2, etabar=0.9, B0=1.2, sG=-1, spsi=-1, I2=0.4, p2=-1e5, order='r2', nphi=15),
+               dict(rc=[1, 0.0, 0.004], zs=[0, 0.0, 0.003], rs=[0, 0.05, 0.0], zc=[0, -0.04, 0.0], nfp=3, etabar=-1.1, B0=0.9, sigma0=0.2, order='r3', nphi=15)):
+        try:
+            objs.append((dict(kind='synth', kwargs=kw), Qsc(**kw), None))
+        except Exception:
+            pass
     for c, q0, cap in objs:
         for h in range(nhist):
             q = _copy.deepcopy(q0)
             hist = []
             for step in range(hlen):
                 op = rng.choice(['set', 'resize_up', 'resize_down', 'calc', 'get', 'setget', 'mirror', 'reverse'])
+                if step == 0 and h == 0 and q.nfourier > 2:
+                    op = 'resize_down'        # every object with a harmonic to drop starts one history by dropping it
+                if step == hlen - 1 and h == 1 and q.nfourier > 2:
+                    op = 'resize_down'        # ... and ends another one that way (nothing afterwards recomputes)
                 if op in ('mirror', 'reverse'):
                     # move the object to its mirror / toroidally reversed twin through the DOF interface (changes the helicity of
                     # quasi-helical configurations): everything derived must follow
@@ -1735,37 +1823,69 @@ def oracle_C16(objs, st=None, nhist=3, hlen=6, n_named=None, seed=0):
 
 
 # ================================================================================================= history = fresh, for every property
-def evaluator_outputs(q, with_shear=True):
-    """results of the evaluation / export methods that a property may talk about (beyond stored attributes)"""
+def evaluator_radius(q):
+    return float(min(0.03 * np.min(q.R0), 0.2 * getattr(q, 'r_singularity', 1e100), 0.1 / np.max(q.curvature)))
+
+
+def evaluator_outputs(q, with_shear=True, r=None, first=0, reverse=False):
+    """results of the evaluation / export methods that a property may talk about (beyond stored attributes).
+    `r` fixes the radius (so that the same call can be repeated before and after a change of the object), `first` /
+    `reverse` choose the order of the calls: a one-entry cache is only exposed when the SAME call is the last one before
+    and the first one after the object changes."""
     import tempfile
     out = {}
-    r = float(min(0.03 * np.min(q.R0), 0.2 * getattr(q, 'r_singularity', 1e100), 0.1 / np.max(q.curvature)))
+    r = evaluator_radius(q) if r is None else r
     ph = np.array([0.1, 1.3, 4.0])
-    try:
+
+    def bmag():
         out['B_mag(cyl)'] = q.B_mag(r, 0.4, ph)
         out['B_mag(boozer)'] = q.B_mag(r, 0.4, ph, Boozer_toroidal=True)
         out['B_mag(cyl) again'] = q.B_mag(r, 0.9, ph)
+
+    def bmag_boozer_last():
+        out['B_mag(boozer) 2'] = q.B_mag(r, 0.7, ph, Boozer_toroidal=True)
+
+    def bfield():
         out['Bfield_cylindrical'] = q.Bfield_cylindrical(r, 0.3)
         out['grad_B_tensor_cartesian'] = q.grad_B_tensor_cartesian()
-        R_, Z_, P_ = q.to_RZ([[r, 0.3, 0.2], [r, 2.0, 0.5]])
-        out['to_RZ'] = np.array([R_, Z_, P_], dtype=float)
-        R2, Z2, p0 = q.Frenet_to_cylindrical(r, ntheta=3)
-        out['Frenet_to_cylindrical'] = np.array([R2, Z2])
         if q.order != 'r1':
             out['grad_grad_B_tensor_cartesian'] = q.grad_grad_B_tensor_cartesian()
+
+    def torz():
+        R_, Z_, P_ = q.to_RZ([[r, 0.3, 0.2], [r, 2.0, 0.5]])
+        out['to_RZ'] = np.array([R_, Z_, P_], dtype=float)
+
+    def f2c():
+        R2, Z2, p0 = q.Frenet_to_cylindrical(r, ntheta=3)
+        out['Frenet_to_cylindrical'] = np.array([R2, Z2])
+
+    def vmec():
         with tempfile.TemporaryDirectory() as tmp:
             fn = _os.path.join(tmp, 'input.h')
             q.to_vmec(fn, r=r, ntheta=5)
             vals, modes = parse_namelist(fn)
             out['vmec PHIEDGE/CURTOR/AM'] = np.array([vals['PHIEDGE'], vals['CURTOR']] + list(vals['AM'] if isinstance(vals['AM'], list) else [vals['AM']]), dtype=float)
             out['vmec RBC'] = np.array([v for (nm, n, m), v in sorted(modes.items()) if nm == 'RBC'])
+
+    def penalty():
         out['min_R0_penalty'] = q.min_R0_penalty()
+
+    def shear():
         if with_shear and q.order == 'r3':
             q.calculate_shear()
             out['iota2'] = q.iota2
-    except ValueError as ex:
-        if 'different signs' not in str(ex):
-            raise
+
+    calls = [bmag, bfield, torz, f2c, vmec, penalty, shear, bmag_boozer_last]
+    k = first % len(calls)
+    calls = calls[k:] + calls[:k]
+    if reverse:
+        calls = calls[::-1]
+    for fn_ in calls:
+        try:
+            fn_()
+        except ValueError as ex:
+            if 'different signs' not in str(ex):
+                raise
     return out
 
 
@@ -1778,8 +1898,9 @@ def oracle_history(objs, st=None, seed=0, label=''):
     for idx, (c, q0, cap) in enumerate(objs):
         q = _copy.deepcopy(q0)
         # first use every evaluator once on the ORIGINAL parameters (so that caches, if any, are populated)
+        r_fix = evaluator_radius(q0)
         try:
-            evaluator_outputs(q)
+            evaluator_outputs(q, r=r_fix, first=idx + seed + 1)        # ... so that call number (idx + seed) is the LAST one
         except Exception:
             pass
         nf = q.nfourier
@@ -1823,7 +1944,8 @@ def oracle_history(objs, st=None, seed=0, label=''):
         st.distinct.add(json_key(c) + what)
         st.check('after a call history the stored outputs equal those of a fresh object built from the current parameters' + label, worst, 1e-12, cid, detail=dict(worst_attribute=wn))
         try:
-            ea, eb = evaluator_outputs(q), evaluator_outputs(f)
+            # the call that came last before the change comes first after it (a one-entry cache keyed on the arguments only)
+            ea, eb = evaluator_outputs(q, r=r_fix, first=idx + seed + 1, reverse=True), evaluator_outputs(f, r=r_fix)
         except Exception as ex:
             continue
         worst, wn = 0.0, None
